@@ -17,7 +17,7 @@ def main():
         "the OS (MAP_SHARED coherence between mappings and processes), torch.from_file, json: a file cell is assumed to be one coherent byte array",
     ]
     run.assumptions += ["names and lock state are not in the property's list and are not compared", "keys satisfy PathSafeKeys (excluded points are run and reported separately)"]
-    from c12_fns import hard_deadline, single_threaded_torch
+    from c12_fns import guarded_stream, hard_deadline, single_threaded_torch
     single_threaded_torch()
     quick = run.tier == "quick"
     import c11_gen
@@ -45,19 +45,19 @@ def main():
         c10_mm.replay_saves(run, drv, [c["case"] for c in corpus], stream="save+load(corpus)")
         import c10_leaf
         with hard_deadline(300 if quick else 1500, "leaf level"):
-            c10_leaf.run_leaf(run, drv)
+            guarded_stream(run, "leaf", c10_leaf.run_leaf, run, drv)
         with hard_deadline(420 if quick else 3000, "model streams"):
-            c10_mm.run_model_streams(run, drv)
+            guarded_stream(run, "model-streams", c10_mm.run_model_streams, run, drv)
         import c10_ext
         with hard_deadline(420 if quick else 3000, "extended domain (other processes)"):
-            c10_ext.run_ext(run)
+            guarded_stream(run, "ext", c10_ext.run_ext, run)
         # return_early=True: result() hands the tensordict back only when every writer task is done, and a load at that moment
         # returns the tensordict saved (same stream as C12's, seen from the save/load side)
         import c12_threads
         with hard_deadline(300 if quick else 1500, "return_early"):
-            c12_threads.run_return_early(run, tag="c10e")
+            guarded_stream(run, "return-early", c12_threads.run_return_early, run, tag="c10e")
             # existsok=False over a former save: same outcome and same directory as the single-threaded form
-            c12_threads.run_existsok(run, tag="c10x")
+            guarded_stream(run, "existsok", c12_threads.run_existsok, run, tag="c10x")
     run.finish("proof")
 
 
